@@ -87,7 +87,7 @@ fn judge<T: LFloat>(cx: &mut Ctx, case: &Case) {
                         if !oracle::is_correctly_rounded(k, &x, abs) {
                             bump(&mut cx.counts, "lossy-off-by-one");
                             // results that are zero / infinity when correctly rounded must be unchanged
-                            let exact_class = oracle::clearly_zero(k, &x) || oracle::clearly_inf(k, &x);
+                            let exact_class = oracle::is_correctly_rounded(k, &x, 0) || oracle::is_correctly_rounded(k, &x, k.inf_bits());
                             if exact_class {
                                 // zero / infinity must be unchanged
                                 Some("lossy-zero-inf")
